@@ -3,7 +3,7 @@
    (b) evaluates the property itself (penalty exact / 0 iff feasible, >= multiplier otherwise)
    on the implementation's own coefficients by enumerating all assignments inside Coq. *)
 From Coq Require Import List ZArith QArith Qcanon Bool Arith.
-From Dimod Require Import Base.Util Model.Poly Model.Comb Model.Penalty Model.CqmBqm Model.DqmAdj.
+From Dimod Require Import Base.Util Model.Poly Model.Comb Model.Penalty Model.CqmBqm Model.DqmAdj Model.DqmIneqGen.
 Import ListNotations.
 Open Scope Qc_scope.
 
@@ -278,8 +278,20 @@ Definition dqm_ineq_adjacency_ok (c : dqm_ineq_case) : bool :=
   | _, _ => adjacency_ok (grp_of (di_groups c)) (di_adj_before c) (di_adj_after c) (di_raw_quad c)
   end.
 
+(* the decision and the cases of every slack variable as the rules GENERATED from
+   discrete_quadratic_model.py give them (Model/DqmIneqGen.v; equal to the above by
+   Proofs/DqmIneqGenFacts.plan_dqm_inequality_g_eq) *)
+Definition dqm_ineq_generated_ok (c : dqm_ineq_case) : bool :=
+  match plan_dqm_inequality_g (di_method c) (di_cz c) (map snd (di_terms c)) (di_const c) (di_lb c) (di_ub c), di_out c with
+  | DSkip, DReturned [] => true
+  | DInfeasible, DRaised => true
+  | DEquality _, DReturned [] => true
+  | DSlack _ vals, DReturned sl => list_eqb (list_eqb Z.eqb) (map (map snd) sl) vals
+  | _, _ => false
+  end.
+
 Definition check_dqm_ineq (c : dqm_ineq_case) : bool :=
-  dqm_ineq_model_ok c && dqm_ineq_oracle_ok c
+  dqm_ineq_model_ok c && dqm_ineq_generated_ok c && dqm_ineq_oracle_ok c
   && energies_ok (obs_poly (di_before c)) (di_en_before c)
   && energies_ok (obs_poly (di_after c)) (di_en_after c)
   && (length (di_en_before c) =? length (onehot_assigns (di_groups c)))%nat
